@@ -66,6 +66,9 @@ Apply(t, e) ==
     \* a connection was handed a permit that the (completed) revocation did not reach: it would serve requests for ever
     [] e.ev = "PermitMissedRevocation" -> No(<<"a connection accepted during revocation holds a permit that was never revoked; it is not closed after revocation">>)
     [] e.ev = "LateConnectAccepted" -> No(<<"connection attempt served after the stop signal">>)
+    \* the server's end of a connection that has ended (ConnEnd) is still open: it holds more sockets than it has slots
+    [] e.ev = "EndedSocketStillOpen" -> No(<<"a connection that has ended still holds its socket: more open sockets than slots", e.b>>)
+    [] e.ev = "EndedSocketClosed" -> Ok(t)
     \* the task that runs the accept loop panicked: whatever it still owed (listener release, stop signal) is never delivered
     [] e.ev = "AcceptTaskPanicked" -> No(<<"the accept task panicked inside servlin; the stop signal it owes is never sent">>)
     \* ---- accept loop ----
